@@ -69,7 +69,8 @@ func stray(serial uint32, code byte) []byte {
 
 func expectSuccess(c callSpec) bool {
 	if c.Op == "SetAddress" {
-		return c.Behaviour != "refused" || c.Path != 2 // nothing to wait for; only a refused TCP connect fails
+		// nothing to wait for; only a TCP connection that cannot be established (refused / unanswered) fails
+		return !(c.Path == 2 && (c.Behaviour == "refused" || c.Behaviour == "blackhole"))
 	}
 	switch c.Behaviour {
 	case "reply", "flood+reply":
@@ -193,6 +194,15 @@ func runBatch(b batch, scale int) *rp.Fail {
 			if c.Behaviour == "refused" {
 				p, _ := farm.FreePort(ip)
 				cfg.Devices = append(cfg.Devices, hook.DeviceCfg{Serial: serial, HasAddr: true, IP: ip, Port: p, Protocol: "tcp"})
+			} else if c.Behaviour == "blackhole" {
+				p, closer, ok := farm.Blackhole(ip)
+				if !ok {
+					ev.Excluded("TCP blackhole endpoint could not be produced", 1)
+					p, _ = farm.FreePort(ip) // degrade to 'refused'
+				} else {
+					defer closer()
+				}
+				cfg.Devices = append(cfg.Devices, hook.DeviceCfg{Serial: serial, HasAddr: true, IP: ip, Port: p, Protocol: "tcp"})
 			} else {
 				e, err := f.TCP(ip, 0, tcpHandler)
 				if err != nil {
@@ -204,6 +214,10 @@ func runBatch(b batch, scale int) *rp.Fail {
 		}
 	}
 	u := hook.Real(cfg)
+	// a second client in the same process sharing the fixed port through the wildcard address
+	cfgAny := cfg
+	cfgAny.BindIP = [4]byte{0, 0, 0, 0}
+	uAny := hook.Real(cfgAny)
 
 	old := debug.SetGCPercent(-1)
 	defer debug.SetGCPercent(old)
@@ -218,13 +232,17 @@ func runBatch(b batch, scale int) *rp.Fail {
 		go func() {
 			var r result
 			r.spec, r.queued = c, queued
+			client := u
+			if queued > 0 && i%2 == 1 {
+				client = uAny
+			}
 			if c.Op == "GetDevices" {
 				func() {
 					defer func() { r.panic = recover() }()
-					_, r.err = u.GetDevices()
+					_, r.err = client.GetDevices()
 				}()
 			} else {
-				res := api.Invoke(u, call(c.Op, serials[i]))
+				res := api.Invoke(client, call(c.Op, serials[i]))
 				r.err, r.panic = res.Err, res.Panic
 			}
 			r.elapsed = time.Since(started)
@@ -362,7 +380,7 @@ func genCall(t *rapid.T, group bool) callSpec {
 	case 1:
 		bs = []string{"reply", "reply", "reply", "silence", "refused", "flood"}
 	default:
-		bs = []string{"reply", "reply", "reply", "stall", "reset", "refused"}
+		bs = []string{"reply", "reply", "reply", "stall", "reset", "refused", "blackhole"}
 	}
 	if group {
 		bs = []string{"reply"}
